@@ -5,6 +5,7 @@ import (
 	"encoding/base64"
 	"encoding/binary"
 	"fmt"
+	"strings"
 	"time"
 
 	"github.com/miekg/dns"
@@ -315,6 +316,29 @@ func c18Case(w *core.W, j int) {
 			w.Violation(keyf("accepts-other-signer-name"), "the signed message verifies although the key's owner differs from the signer name", wit)
 		}
 		w.Count("key_alterations", 2)
+		// a KEY of every other algorithm family published under the signer's name: an error, not a panic
+		for _, oa := range allAlgs {
+			if oa == alg {
+				continue
+			}
+			ok2, err := getKey(oa, algBits[oa][0], keyName.Pres(), 512, 3)
+			if err != nil {
+				continue
+			}
+			key5 := &dns.KEY{DNSKEY: *dns.Copy(ok2.Key).(*dns.DNSKEY)}
+			key5.Hdr.Rrtype = dns.TypeKEY
+			for _, tagged := range []bool{false, true} {
+				s5 := sig
+				if tagged { // and with the key tag made to match, so that whatever lies behind the tag check is reached
+					s5 = dns.Copy(sig).(*dns.SIG)
+					s5.KeyTag = key5.KeyTag()
+				}
+				if verr, ok := verify(s5, key5, out); ok && verr == nil {
+					w.Violation(keyf("accepts-key-of-other-algorithm/"+algName(oa)), "the signed message verifies under a KEY of another algorithm", wit)
+				}
+				w.Count("key_alterations", 1)
+			}
+		}
 		// a key owner that differs from the signer name in one octet by 0x20 where neither is a letter
 		kn := keyName.Pres()
 		for i := 0; i < len(kn); i++ {
@@ -344,6 +368,43 @@ func c18Case(w *core.W, j int) {
 			w.Violation(keyf("accepts-outside-window"), fmt.Sprintf("a signature valid from %d to %d verifies at %d", win[0], win[1], now), wit)
 		}
 		w.Count("window_checks", 1)
+	}
+	// (g2) messages whose signed form is exactly 65534, 65535 (the largest DNS message) and 65536 octets
+	if j%7 == 0 {
+		overhead := len(out) - len(plain)
+		for _, total := range []int{65534, 65535, 65536} {
+			base := &dns.Msg{}
+			base.Id = uint16(total)
+			base.Question = []dns.Question{{Name: "big.example.", Qtype: dns.TypeNULL, Qclass: 1}}
+			bl, _ := base.Pack()
+			n := total - overhead - len(bl) - 11
+			if n < 0 || n > 65535 {
+				continue
+			}
+			base.Answer = []dns.RR{&dns.NULL{Hdr: dns.RR_Header{Name: ".", Rrtype: dns.TypeNULL, Class: 1}, Data: strings.Repeat("x", n)}}
+			s3 := &dns.SIG{RRSIG: dns.RRSIG{KeyTag: key.KeyTag(), SignerName: keyName.Pres(), Algorithm: alg, Inception: now - 7200, Expiration: now + 7200}}
+			var o3 []byte
+			var e3 error
+			wit3 := map[string]any{"alg": an, "signed_size": total}
+			if w.Guard("SIG.Sign(size boundary)", wit3, func() { o3, e3 = s3.Sign(k.Priv, base) }) {
+				continue
+			}
+			w.Count("size_boundary_signings", 1)
+			switch {
+			case total <= 65535 && e3 != nil:
+				w.Violation(keyf("sign-fails/signed-size-"+fmt.Sprint(total)), fmt.Sprintf("a message whose signed form is %d octets cannot be signed: %v", total, e3), wit3)
+			case total <= 65535 && len(o3) != total:
+				w.Inconclusive(fmt.Sprintf("c18-size-boundary-miss:%d!=%d", len(o3), total))
+			case total <= 65535:
+				if ok, why := sig0ModelVerify(o3, keyName, alg, pub, now); !ok {
+					w.Violation(keyf("sign-output-invalid/signed-size-"+fmt.Sprint(total)), "the signed message of the maximum size does not verify: "+why, wit3)
+				} else if verr, ok := verify(s3, key, o3); ok && verr != nil {
+					w.Violation(keyf("own-signature-rejected/signed-size-"+fmt.Sprint(total)), fmt.Sprintf("Verify: %v", verr), wit3)
+				}
+			case e3 == nil:
+				w.Violation(keyf("oversize-signed-message-emitted"), fmt.Sprintf("Sign returned %d octets for a message that cannot fit 65535", len(o3)), wit3)
+			}
+		}
 	}
 	// (h) truncation at every point >= 12 and mutations: an error, never a panic
 	var cuts []int
@@ -401,7 +462,7 @@ func init() {
 	core.Register(&core.Monitor{
 		ID: "C18", Level: "fault_enumeration", Plan: plan, Run: run, Terminates: true, CaseTimeout: 300e9,
 		Rule: "messages {header-only update, heavily compressible, 254..512 additional records, pool names, all registry types} x Compress on/off x RSASHA1/256/512, ECDSA P-256/P-384, Ed25519; oracle = independent RFC 2931 verification (model walk + Go crypto): Sign must succeed, output = packed message || SIG with ARCOUNT+1, verifies independently and with Verify (original and re-decoded SIG); " +
-			"every single-bit flip of the message part and the SIG RDATA (signed messages <= 220 octets; 256 sampled bits incl. the whole header above), other key, other signer name (incl. one differing by 0x20 in a non-letter), windows entirely in the past/future and empty windows with expiration before inception (>= 1 h from the real clock), a second message signed with the same SIG value, every truncation point >= 12 (<= 400 octets; ~300 sampled above), 60 structure-aware mutations; Verify==nil implies the model accepts; no panic; " +
+			"every single-bit flip of the message part and the SIG RDATA (signed messages <= 220 octets; 256 sampled bits incl. the whole header above), other key, a KEY of every other algorithm (with and without matching tag), other signer name (incl. one differing by 0x20 in a non-letter), signed sizes of exactly 65534/65535/65536 octets, windows entirely in the past/future and empty windows with expiration before inception (>= 1 h from the real clock), a second message signed with the same SIG value, every truncation point >= 12 (<= 400 octets; ~300 sampled above), 60 structure-aware mutations; Verify==nil implies the model accepts; no panic; " +
 			"non-trivial = distinct signed message",
 		Assumptions: []string{"SIG.Verify reads the wall clock: windows are placed at least one hour from it, the exact boundary second is not decided", "bits of the SIG RR's own owner/type/class/TTL/RDLENGTH are outside the statement ('the message or the SIG RDATA')"},
 		MinObserved: []string{"signed", "alterations_rejected", "exhaustive_bitflip_messages", "exhaustive_truncation_messages", "truncations", "window_checks", "key_alterations"},
